@@ -231,7 +231,8 @@ impl Card {
             return;
         }
         if cmd == 12 && matches!(self.phase, Phase::WaitTok(true, _)) {
-            let mut v = vec![0xFF; self.t(0, k)];
+            let mut v = vec![127u8];
+            v.extend(vec![0xFF; self.t(0, k)]);
             v.push(self.r1(0));
             v.extend(vec![0u8; self.t(3, k)]);
             self.set_out(v, Phase::Idle);
